@@ -18,7 +18,7 @@ func init() {
 			"bytes behind valid / broken headers. Every read is judged for panic, termination (watchdog) and allocation (TotalAlloc delta); " +
 			"non-trivial = a valid tree with at least one event (a) or an input longer than the 14-byte header (b, c); distinct by op text",
 		Gen: func(r *Rng, tier string, emit func(Case)) {
-			na, nb, nc := 80, 1500, 1500
+			na, nb, nc := 60, 1500, 1500
 			if tier == "thorough" {
 				na, nb, nc = 2500, 60000, 60000
 			}
